@@ -35,6 +35,8 @@ FAMILIES = {
     "neg_la_cheap_in_cat_loop": ("((?!b)a|a)+c", lambda n: "a" * n, True),
     "neg_la": ("(?!(a+)+b)a{2}z", lambda n: "a" * n, True),
     "lb_nested_plus": ("(?<=(a+)+b)c", lambda n: "a" * n + "c", True),
+    "lb_late": ("x(?<=(a+)+b)", lambda n: "a" * n + "x", True),
+    "neg_lb_late": ("x(?<!(a+)+b)y", lambda n: "a" * n + "x", True),
     "lb_in_loop": ("(a(?<=(a|aa)+b))*c", lambda n: "a" * n, True),
     "neg_lb": ("(?<!(a+)+b)c", lambda n: "a" * n + "c", True),
     # patterns that can match the empty string: every scanning API must still advance
@@ -62,6 +64,9 @@ APIS = {
     "replace_g": "S.replace(%(RG)s, 'x')",
     "replaceAll": "S.replaceAll(%(RG)s, 'x')",
     "split": "S.split(%(R)s)",
+    "split_limit": "S.split(%(R)s, 3)",
+    "split_limit_g": "S.split(%(RG)s, 1)",
+    "replace_dollar": "S.replace(%(RG)s, '[$&$1]')",
     "match_str": "S.match(%(P)s)",
     "search_str": "S.search(%(P)s)",
     "exec_g_loop": "(function(){ var r=%(RG)s, k=0; while(r.exec(S) && k<50){ k++; } return k; })()",
